@@ -359,6 +359,7 @@ pub fn child_main(space: &Space, prop: &str, start: u64, stride: u64, shm_path: 
             break;
         }
     }
+    shm.store(2, 1); // all cases of this shard ran; what follows is only reporting
     shm.store(0, 0);
     let mut rep = Report::default();
     rep.absorb_ctx(ctx);
@@ -447,6 +448,10 @@ impl Shm {
     }
 }
 
+fn done_cases_of(shm: &Shm) -> u64 {
+    shm.load(1)
+}
+
 /// Parent side of the isolated exploration: `procs` children, child k runs idx ≡ k (mod procs).
 /// A child that dies on a signal yields a violation for the published index and is restarted
 /// behind it.
@@ -477,6 +482,7 @@ pub fn explore_isolated(space: &Space, cfg: &RunCfg, space_ordinal: usize, child
                         }
                         shm.store(0, 0);
                         shm.store(1, 0);
+                        shm.store(2, 0);
                         let out = Command::new(&exe)
                             .args(child_args)
                             .arg("--child")
@@ -498,6 +504,17 @@ pub fn explore_isolated(space: &Space, cfg: &RunCfg, space_ordinal: usize, child
                         let done_cases = shm.load(1);
                         use std::os::unix::process::ExitStatusExt;
                         let signal = out.status.signal();
+                        if published == 0 && shm.load(2) == 1 {
+                            // every case of the shard ran, then the child died while freeing memory /
+                            // printing its report: an earlier case of this shard corrupted the heap
+                            use std::os::unix::process::ExitStatusExt;
+                            let sig = format!("{}|crash|signal {:?} after the last case of a shard (memory corrupted by an earlier case)", cfg.prop, out.status.signal());
+                            *rep.sig_counts.entry(sig.clone()).or_insert(0) += 1;
+                            rep.cases += done_cases_of(&shm);
+                            rep.crashes += 1;
+                            rep.viols.push(Viol { space: space.name.clone(), idx: start, sig, detail: json!({"shard_first_index": start, "stride": procs, "status": format!("{:?}", out.status), "note": "the shard's own verdicts were lost with the child; see the other shards / run the shard single-stepped"}) });
+                            break;
+                        }
                         if published == 0 {
                             // died outside a case (startup / report) -> machinery error
                             eprintln!(
@@ -531,8 +548,10 @@ pub fn explore_isolated(space: &Space, cfg: &RunCfg, space_ordinal: usize, child
                         });
                         start = idx + procs;
                         restarts += 1;
-                        if restarts > 2000 {
+                        if restarts > 25 {
+                            // the verdict is clear; do not spend minutes re-spawning children
                             rep.cap_hit = true;
+                            rep.notes.insert("isolated shards stopped after 25 crashes".into(), 1);
                             break;
                         }
                     }
